@@ -231,7 +231,8 @@ unique_ptr<DiscreteDistributionInterface> BppODiscreteDistributionFormat::readDi
     }
     else if (distName == "TruncExponential")
     {
-      rDist.reset(new TruncatedExponentialDiscreteDistribution(nbClasses, 1, 0));
+      // NB: a truncation point of 0 gives an empty domain [0;0[, which cannot be discretized.
+      rDist.reset(new TruncatedExponentialDiscreteDistribution(nbClasses, 1, 10));
 
       if (args.find("median") != args.end())
         rDist->setMedian(true);
